@@ -8,7 +8,8 @@ Strings are `List Char`; `checksumOf s` is `Engine::new().input(s); checksum_cha
 `verifyChecksumL` is `verify_checksum`.  All statements hold for strings of ANY length.
 -/
 import MsVerif.Lemmas.ChecksumString
-import MsVerif.Lemmas.ChecksumTwo
+import MsVerif.Lemmas.ChecksumRun
+import MsVerif.Lemmas.ChecksumBip380
 import MsVerif.Spec.Bch
 
 namespace MsVerif.C10
@@ -86,13 +87,40 @@ theorem printed_checksum_accepted_string (s cs : String) (h : checksumChars s = 
     rw [this, printed_checksum_accepted _ _ hc]
     simp
 
-/-- the printed checksum is the one of the BIP-380 reference code (on a test vector; the
-general statement `checksum_eq_bip380_full` is checked on every run by the `J cscreate` judge) -/
-def checksum_eq_bip380_full : Prop := ∀ s : List Char, checksumOf s = Spec.Bch.create s
+/-- **the checksum the library prints is the BIP-380 checksum**: the model of the Rust engine
+(`Engine::input` + `checksum_chars`, class folding, bech32 polymod with the five generator
+constants) and the BIP's reference algorithm transcribed independently in `Spec/Bch.lean`
+(`descsum_expand`, `descsum_polymod`, `descsum_create`, plain `Nat` arithmetic) agree on EVERY
+string — valid or not (both `none` on a character outside the charset), of any length. -/
+theorem checksum_eq_bip380 (s : List Char) : checksumOf s = Spec.Bch.create s :=
+  checksumOf_eq_create s
 
-theorem checksum_eq_bip380_partial :
-    checksumOf "sh(multi(2,[00000000/111'/222]xpub,xpub/0))".toList
-      = Spec.Bch.create "sh(multi(2,[00000000/111'/222]xpub,xpub/0))".toList := by decide +kernel
+/-! the test vectors of BIP-380 ("Checksum and character set") and of Bitcoin Core that the
+repository carries (`descriptor/checksum.rs` tests), evaluated by the kernel on the MODEL -/
+example : verifyChecksumL "raw(deadbeef)#89f8spxm".toList = .ok "raw(deadbeef)".toList := by
+  decide +kernel
+example : verifyChecksumL "raw(deadbeef)".toList = .ok "raw(deadbeef)".toList := by decide +kernel
+example : verifyChecksumL "raw(deadbeef)#".toList = .err .invalidChecksumLength := by
+  decide +kernel                                                       -- missing checksum
+example : verifyChecksumL "raw(deadbeef)#89f8spxmx".toList = .err .invalidChecksumLength := by
+  decide +kernel                                                       -- too long
+example : verifyChecksumL "raw(deadbeef)#89f8spx".toList = .err .invalidChecksumLength := by
+  decide +kernel                                                       -- too short
+example : verifyChecksumL "raw(dedbeef)#89f8spxm".toList = .err .invalidChecksum := by
+  decide +kernel                                                       -- error in payload
+example : verifyChecksumL "raw(deadbeef)##9f8spxm".toList = .err .invalidChecksumLength := by
+  decide +kernel                                                       -- error in checksum
+example : verifyChecksumL "raw(Ü)#00000000".toList = .err .invalidCharacter := by
+  decide +kernel                                                       -- invalid character
+example : checksumOf "wpkh(tprv8ZgxMBicQKsPdpkqS7Eair4YxjcuuvDPNYmKX3sCniCf16tHEVrjjiSXEkFRnUH77yXc6ZcwHHcLNfjdi5qUvw3VDfgYiH5mNsj5izuiu2N/1/2/*)".toList
+    = some "tqz0nc62".toList := by decide +kernel
+example : checksumOf "pkh(tpubD6NzVbkrYhZ4XHndKkuB8FifXm8r5FQHwrN6oZuWCz13qb93rtgKvD4PQsqC4HP4yhV3tA2fqr2RbY5mNXfM7RxXUoeABoDtsFUq2zJq6YK/44'/1'/0'/0/*)".toList
+    = some "lasegmfs".toList := by decide +kernel
+example : checksumOf "sh(multi(2,[00000000/111'/222]xprvA1RpRA33e1JQ7ifknakTFpgNXPmW2YvmhqLQYMmrj4xJXXWYpDPS3xz7iAxn8L39njGVyuoseXzU6rcxFLJ8HFsTjSyQbLYnMpCqE2VbFWc,xprv9uPDJpEQgRQfDcW7BkF7eTya6RPxXeJCqCJGHuCJ4GiRVLzkTXBAJMu2qaMWPrS7AANYqdq6vcBcBUdJCVVFceUvJFjaPdGZ2y9WACViL4L/0))".toList
+    = some "ggrsrxfy".toList := by decide +kernel
+example : checksumOf "sh(multi(2,[00000000/111'/222]xpub6ERApfZwUNrhLCkDtcHTcxd75RbzS1ed54G1LkBUHQVHQKqhMkhgbmJbZRkrgZw4koxb5JaHWkY4ALHY2grBGRjaDMzQLcgJvLJuZZvRcEL,xpub68NZiKmJWnxxS6aaHmn81bvJeTESw724CRDs6HbuccFQN9Ku14VQrADWgqbhhTHBaohPX4CjNLf9fq9MYo6oDaPPLPxSb7gwQN3ih19Zm4Y/0))".toList
+    = some "tjg09x5t".toList := by decide +kernel
+example : Spec.Bch.check "raw(deadbeef)#89f8spxm".toList = true := by decide +kernel
 
 /-- `verify_checksum` never panics -/
 theorem verify_never_panics (s : List Char) : verifyChecksumL s ≠ .panic :=
@@ -251,22 +279,30 @@ theorem separator_substitution (s cs : List Char) (c : Char) (hc : c ≠ '#') :
       simp only [List.length_take, List.length_append, List.length_cons] at this hlt
       omega
 
-/-! ## T3 — two substitutions inside the characters' classes
+/-! ## T3 — every two-character substitution is detected
 
-A character is a 5-bit symbol plus a class digit (0, 1, 2 = which third of INPUT_CHARSET it
-lies in; three class digits are folded into one more symbol).  A substitution that keeps the
-class (digit ↔ digit, hex letter ↔ hex letter or punctuation of the first group, lower case ↔
-lower case `i`–`z`, upper case `I`–`Z` ↔ upper case, …) changes exactly one symbol.  Two such
-substitutions are detected whenever fewer than 766 characters lie between them — by a
-kernel-checked table of `L^d e` for all `1 ≤ d ≤ 1024` and all 31 non-zero symbols `e`
-(`Lemmas/ChecksumTable*.lean`). -/
+A character is a 5-bit symbol plus a class digit (which third of INPUT_CHARSET it lies in; three
+class digits are folded into one more symbol), so one substituted character alters up to two
+symbols — its low symbol and the class symbol 1–3 places later — and two substituted characters
+up to four.  The polymod step is XOR-linear, so whether the checksum changes depends only on the
+error pattern, not on the string.  Two engines are run in lock-step over the two strings
+(`Lemmas/ChecksumAuto.lean`): if both substitutions fall into the same group of three the
+difference of the residues stays a non-zero value below 2^20 and can never vanish (`L` is
+injective); otherwise the first pattern `X`, moved on by the distance `g` between the two class
+symbols, must differ from the second pattern `Y`: `L^g X ≠ Y` for ALL patterns and all
+`1 ≤ g ≤ 1040` is a kernel-checked table (`Lemmas/ChecksumPair*.lean`: for each `g` and each pair
+of offsets a GF(2) rank computation on ten 40-bit vectors, by a verified Gaussian elimination).
+The same table covers one substituted body character plus one substituted checksum character.
 
-/-- **T3** two class-preserving substitutions in the body, at most 765 characters apart, in a
-string of any length -/
-theorem two_same_class_substitutions_detected (pre mid post cs : List Char) (x x' y y' : Char)
+Length bounds: what the kernel-checked table (1040 symbol distances) supports.  The underlying
+mathematical fact holds up to distance 32 763 (≈ 24 500 characters; a direct computation, not
+part of the proof), i.e. far beyond the ≈ 500 characters of the property's statement. -/
+
+/-- **T3, body**: two substituted characters in the body — any characters, any classes, any
+positions at most 777 characters apart, in a string of ANY length -/
+theorem two_substitutions_detected_body (pre mid post cs : List Char) (x x' y y' : Char)
     (h : checksumOf (pre ++ x :: (mid ++ y :: post)) = some cs)
-    (hx' : validChar x' = true) (hy' : validChar y' = true) (hnx : x ≠ x') (hny : y ≠ y')
-    (hcx : classOf x = classOf x') (hcy : classOf y = classOf y') (hlen : mid.length ≤ 765) :
+    (hnx : x ≠ x') (hny : y ≠ y') (hlen : mid.length + mid.length / 3 + 4 ≤ 1040) :
     ∃ e, verifyChecksumL ((pre ++ x' :: (mid ++ y' :: post)) ++ '#' :: cs) = .err e := by
   obtain ⟨hl, hv, hn⟩ := checksum_shape _ cs h
   have hs := allValid_of_checksum h
@@ -274,31 +310,87 @@ theorem two_same_class_substitutions_detected (pre mid post cs : List Char) (x x
   obtain ⟨hx, h2⟩ := h1.of_cons
   obtain ⟨hmid, h3⟩ := h2.of_append
   obtain ⟨hy, hpost⟩ := h3.of_cons
-  obtain ⟨c1, c2, e1, e2, hc⟩ :=
-    checksum_differs_two hpre hmid hpost hx hx' hy hy' hnx hny hcx hcy hlen
-  rw [h] at e1; cases e1
-  have hv2 : AllValid (pre ++ x' :: (mid ++ y' :: post)) :=
-    hpre.append (AllValid.cons hx' (hmid.append (AllValid.cons hy' hpost)))
-  rw [verify_split _ cs hv2 hv hn, e2]
-  have : ¬ c2 = cs := fun e => hc e.symm
-  exact ⟨.invalidChecksum, by simp [hl, this]⟩
+  by_cases hx' : validChar x' = true
+  · by_cases hy' : validChar y' = true
+    · -- run the two engines: common prefix, x/x', mid, y/y', post
+      obtain ⟨en, he, w⟩ := inputUnchecked_valid WF_new hpre
+      obtain ⟨p, hp, hpl⟩ := pos_of_valid x hx
+      obtain ⟨p', hp', hpl'⟩ := pos_of_valid x' hx'
+      obtain ⟨q, hq, hql⟩ := pos_of_valid y hy
+      obtain ⟨q', hq', hql'⟩ := pos_of_valid y' hy'
+      have hpp : p ≠ p' := by intro e; apply hnx; apply pos_inj hx hx'; rw [hp, hp', e]
+      have hqq : q ≠ q' := by intro e; apply hny; apply pos_inj hy hy'; rw [hq, hq', e]
+      obtain ⟨a1, b1, ha1, hb1, o1⟩ := one_list (zero_diff w hpl hpl' hpp) hmid
+      rw [Nat.zero_add] at o1
+      have t2 := one_diff o1 hql hql' hqq hlen
+      obtain ⟨a2, b2, ha2, hb2, t3⟩ := two_list t2 hpost
+      obtain ⟨ra, rb, hra, hrb, hne⟩ := two_final t3
+      have v2 : AllValid (pre ++ x' :: (mid ++ y' :: post)) :=
+        hpre.append (AllValid.cons hx' (hmid.append (AllValid.cons hy' hpost)))
+      have r1 : Engine.new.inputUnchecked (pre ++ x :: (mid ++ y :: post)) = some a2 := by
+        rw [inputUnchecked_append, he]
+        simp only [Option.bind, Engine.inputUnchecked, inputByte_eq w hp hpl]
+        rw [inputUnchecked_append, ha1]
+        simp only [Option.bind, Engine.inputUnchecked, inputByte_eq o1.wf.1 hq hql]; exact ha2
+      have r2 : Engine.new.inputUnchecked (pre ++ x' :: (mid ++ y' :: post)) = some b2 := by
+        rw [inputUnchecked_append, he]
+        simp only [Option.bind, Engine.inputUnchecked, inputByte_eq w hp' hpl']
+        rw [inputUnchecked_append, hb1]
+        simp only [Option.bind, Engine.inputUnchecked, inputByte_eq o1.wf.2 hq' hql']; exact hb2
+      have c1 := checksumOf_of_run hs r1 hra
+      have c2 := checksumOf_of_run v2 r2 hrb
+      rw [h] at c1
+      rw [verify_split _ cs v2 hv hn, c2]
+      have : ¬ residueChars rb = cs := by
+        intro e; rw [Option.some.inj c1] at e; exact hne (residueChars_inj e).symm
+      exact ⟨.invalidChecksum, by simp [hl, this]⟩
+    · refine ⟨.invalidCharacter, ?_⟩
+      unfold verifyChecksumL
+      rw [scanHash_invalid]
+      intro hall; exact hy' (hall y' (by simp))
+  · refine ⟨.invalidCharacter, ?_⟩
+    unfold verifyChecksumL
+    rw [scanHash_invalid]
+    intro hall; exact hx' (hall x' (by simp))
 
-example : classOf '3' = classOf 'a' ∧ classOf 'k' = classOf 'z' ∧ classOf 'K' ≠ classOf 'k' := by
-  decide
+/-- a class-changing and a class-preserving substitution 11 characters apart -/
+example : ∃ e, verifyChecksumL "rAw(deadbeef]#89f8spxm".toList = .err e :=
+  two_substitutions_detected_body "r".toList "w(deadbeef".toList [] "89f8spxm".toList
+    'a' 'A' ')' ']' (by decide +kernel) (by decide) (by decide) (by decide)
 
-example : ∃ e, verifyChecksumL "raw(deedbeaf)#89f8spxm".toList = .err e :=
-  two_same_class_substitutions_detected "raw(de".toList "dbe".toList "f)".toList "89f8spxm".toList
-    'a' 'e' 'e' 'a' (by decide +kernel) (by decide) (by decide) (by decide) (by decide)
-    (by decide) (by decide) (by decide)
+/-- corrupted strings `t1 ++ "#" ++ t2` (separator intact) are rejected as soon as the corrupted
+checksum is not the checksum of the corrupted body -/
+theorem rejected_of_mismatch (t1 t2 : List Char) (hl2 : t2.length = 8)
+    (key : AllValid t1 → checksumOf t1 ≠ some t2) :
+    ∃ e, verifyChecksumL (t1 ++ '#' :: t2) = .err e := by
+  by_cases hv : AllValid (t1 ++ '#' :: t2)
+  · obtain ⟨hv1, hv2'⟩ := hv.of_append
+    obtain ⟨_, hv2⟩ := hv2'.of_cons
+    by_cases hin : '#' ∈ t2
+    · obtain ⟨u, v, e, hnv⟩ := last_hash_split hin
+      subst e
+      obtain ⟨hvu, hvv'⟩ := hv2.of_append
+      obtain ⟨_, hvv⟩ := hvv'.of_cons
+      have e2 : t1 ++ '#' :: (u ++ '#' :: v) = (t1 ++ '#' :: u) ++ '#' :: v := by simp
+      rw [e2, verify_split _ v (hv1.append (AllValid.cons (by decide) hvu)) hvv hnv]
+      have : v.length ≠ 8 := by
+        simp only [List.length_append, List.length_cons] at hl2; omega
+      exact ⟨.invalidChecksumLength, by simp [this]⟩
+    · rw [verify_split t1 t2 hv1 hv2 hin]
+      obtain ⟨c, hc⟩ := checksum_exists t1 hv1
+      rw [hc]
+      have : ¬ c = t2 := fun e => key hv1 (by rw [hc, e])
+      exact ⟨.invalidChecksum, by simp [hl2, this]⟩
+  · exact ⟨.invalidCharacter, by unfold verifyChecksumL; rw [scanHash_invalid hv]⟩
 
-/-! ## T3 / T4 — two and more substitutions
+/-! ## T4 — the claim of the property in the specification's vocabulary -/
 
-`checksum_distance_full` is the complete claim of the property.  It follows from the BCH
-design distance 5 of the code over GF(32) (one character changes at most two symbols); a kernel
-proof needs either the field-theoretic BCH bound or a ≈ 2·10⁸-entry meet-in-the-middle
-certificate, neither of which is available here.  It is tested on every run by
-`J csdetect`/`J csdetectagg` (random 2-substitutions and ≤ 4 first-group substitutions).
-Proved: the one-substitution case for every length (`single_char_detected`). -/
+/-- The complete claim of the property.  OPEN part: `k = 3, 4` inside the first group (3–4 symbol
+errors at arbitrary positions).  It follows from the BCH design distance of the code; a kernel
+proof would need either the field-theoretic BCH bound over GF(1024) or ≈ 2·10⁵ (k = 3) /
+≈ 10⁸ (k = 4) rank computations of the kind used for `k = 2` (≈ 20 ms each in the kernel).
+It is tested on every run by `J csdetect` / `J csdetectagg` (random ≤ 4 first-group
+substitutions). -/
 def checksum_distance_full : Prop :=
   ∀ (s cs t : List Char) (k : Nat), checksumOf s = some cs → s.length ≤ 500 →
     Spec.Bch.Substituted k (s ++ '#' :: cs) t →
@@ -306,21 +398,79 @@ def checksum_distance_full : Prop :=
     (k ≤ 2 ∨ (k ≤ 4 ∧ Spec.Bch.inFirstGroup (s ++ '#' :: cs) t = true)) →
     ∃ e, verifyChecksumL t = .err e
 
-/-- the `k = 1` instance of `checksum_distance_full`, in the specification's vocabulary and
-without the length bound.  Missing for the full statement: `k = 2` beyond the class-preserving
-case of `two_same_class_substitutions_detected` (a class-changing substitution alters two
-symbols, so two of them are up to 4 symbol errors), and `k = 3, 4` inside the first group. -/
+/-- **the `k ≤ 2` part of `checksum_distance_full`, proved** — with the length bound 773 instead
+of 500: in a checksummed string whose body has at most 773 characters, substituting ANY one or
+two characters (body and/or checksum part, by characters of the charset or not), the separator
+left intact, makes `verify_checksum` fail.  Missing for the full statement: `k = 3, 4` inside the
+first group. -/
 theorem checksum_distance_partial (s cs t : List Char) (h : checksumOf s = some cs)
-    (hsub : Spec.Bch.Substituted 1 (s ++ '#' :: cs) t)
+    (hlen : s.length ≤ 773) (hsub : Spec.Bch.Substituted 2 (s ++ '#' :: cs) t)
     (hsep : (s ++ '#' :: cs)[s.length]? = t[s.length]?) :
     ∃ e, verifyChecksumL t = .err e := by
-  obtain ⟨hl, h0, h1⟩ := hsub
-  obtain ⟨i, hi, c, hne, ht⟩ := hamming_one hl (by omega)
-  subst ht
-  refine single_char_detected s cs h i c hi ?_ hne
-  intro e
-  subst e
-  rw [List.getElem?_set_self hi, List.getElem?_eq_getElem hi] at hsep
-  exact hne (Option.some.inj hsep)
+  obtain ⟨hl, h0, h2⟩ := hsub
+  obtain ⟨hcl, hcv, hcn⟩ := checksum_shape s cs h
+  have hs := allValid_of_checksum h
+  -- split `t` at the separator
+  have htl : t.length = s.length + 1 + cs.length := by
+    rw [← hl]; simp only [List.length_append, List.length_cons]; omega
+  have hsplit : t = t.take s.length ++ (t.drop s.length) := (List.take_append_drop _ _).symm
+  have hlt : s.length < t.length := by omega
+  have hd : t.drop s.length = t[s.length] :: t.drop (s.length + 1) := by
+    rw [List.drop_eq_getElem_cons hlt]
+  have hc : t[s.length] = '#' := by
+    rw [List.getElem?_append_right (Nat.le_refl _), Nat.sub_self, List.getElem?_cons_zero,
+      List.getElem?_eq_getElem hlt] at hsep
+    exact (Option.some.inj hsep).symm
+  obtain ⟨t1, ht1⟩ : ∃ t1, t1 = t.take s.length := ⟨_, rfl⟩
+  obtain ⟨t2, ht2⟩ : ∃ t2, t2 = t.drop (s.length + 1) := ⟨_, rfl⟩
+  have et : t = t1 ++ '#' :: t2 := by rw [hsplit, hd, hc, ht1, ht2]
+  have hl1 : s.length = t1.length := by rw [ht1, List.length_take]; omega
+  have hl2 : cs.length = t2.length := by rw [ht2, List.length_drop]; omega
+  have hham : Spec.Bch.hamming (s ++ '#' :: cs) t
+      = Spec.Bch.hamming s t1 + Spec.Bch.hamming cs t2 := by
+    rw [et, hamming_append s _ t1 _ hl1]
+    simp [Spec.Bch.hamming]
+  rw [hham] at h0 h2
+  rw [et]
+  apply rejected_of_mismatch t1 t2 (by omega)
+  intro hv1
+  -- the four ways of distributing one or two substitutions over body and checksum
+  by_cases b0 : Spec.Bch.hamming s t1 = 0
+  · have := hamming_zero hl1 b0
+    subst this
+    rw [h]
+    intro e
+    have e' : cs = t2 := Option.some.inj e
+    rw [e'] at h0
+    simp only [hamming_self] at h0
+    omega
+  · by_cases b1 : Spec.Bch.hamming s t1 = 1
+    · by_cases c0 : Spec.Bch.hamming cs t2 = 0
+      · have := hamming_zero hl2 c0
+        subst this
+        obtain ⟨ra, rb, M, δ, lo, bs, e1, e2, hp, hx, _, _⟩ := checksum_one hl1 hs hv1 b1
+        rw [e2]; rw [h] at e1
+        intro e
+        have : residueChars rb = residueChars ra := by
+          rw [← Option.some.inj e1]; exact Option.some.inj e
+        rw [residueChars_inj this, BitVec.xor_self] at hx
+        exact pat_ne_zero hp (Lpow_eq_zero M hx.symm)
+      · have c1 : Spec.Bch.hamming cs t2 = 1 := by omega
+        obtain ⟨j, _, c, _, e⟩ := hamming_one hl2 c1
+        rw [e]
+        exact body_and_checksum hl1 hs hv1 b1 h (by omega)
+    · have b2 : Spec.Bch.hamming s t1 = 2 := by omega
+      have c0 : Spec.Bch.hamming cs t2 = 0 := by omega
+      have := hamming_zero hl2 c0
+      subst this
+      obtain ⟨c1, c2, e1, e2, hne⟩ := checksum_differs2 hl1 hs hv1 b2 (by omega)
+      rw [e2]; rw [h] at e1
+      intro e
+      exact hne (by rw [← Option.some.inj e1]; exact (Option.some.inj e).symm)
+
+/-- one substituted body character (class-changing) and one substituted checksum character -/
+example : ∃ e, verifyChecksumL "raw(dEadbeef)#89f8spxq".toList = .err e :=
+  checksum_distance_partial "raw(deadbeef)".toList "89f8spxm".toList _ (by decide +kernel)
+    (by decide) (by decide +kernel) (by decide +kernel)
 
 end MsVerif.C10
